@@ -290,9 +290,11 @@ macro_rules! rotr_128 {
         #[inline(always)]
         fn $name(self) -> Self {
             Self::new(unsafe {
+                // all amounts are below 64: shift both halves, take the bits that cross from the
+                // other half
                 _mm_or_si128(
-                    _mm_srli_si128(self.x, $i as i32),
-                    _mm_slli_si128(self.x, 128 - $i as i32),
+                    _mm_srli_epi64(self.x, $i as i32),
+                    _mm_slli_epi64(_mm_shuffle_epi32(self.x, 0b0100_1110), 64 - $i as i32),
                 )
             })
         }
@@ -771,7 +773,7 @@ impl<S4, NI> BSwap for u128x1_sse2<YesS3, S4, NI> {
     #[inline(always)]
     fn bswap(self) -> Self {
         Self::new(unsafe {
-            let k = _mm_set_epi64x(0x0f0e_0d0c_0b0a_0908, 0x0706_0504_0302_0100);
+            let k = _mm_set_epi64x(0x0001_0203_0405_0607, 0x0809_0a0b_0c0d_0e0f);
             _mm_shuffle_epi8(self.x, k)
         })
     }
@@ -779,7 +781,7 @@ impl<S4, NI> BSwap for u128x1_sse2<YesS3, S4, NI> {
 impl<S4, NI> BSwap for u128x1_sse2<NoS3, S4, NI> {
     #[inline(always)]
     fn bswap(self) -> Self {
-        unimplemented!()
+        Self::new(unsafe { bswap32_s2(_mm_shuffle_epi32(self.x, 0b0001_1011)) })
     }
 }
 
